@@ -63,9 +63,30 @@ func init() {
 		Rules:   []string{"C13.R1", "C13.R2", "C13.R3", "C13.R4", "C06.R2"},
 		Explain: "tbd", NotDecided: []string{"tbd"}})
 	registerProperty(&PropertyDef{ID: "C12", Title: "Exp, Ln, Log10 and Pow are accurate to one unit in the last place",
-		Rules:   []string{"C12.R1"},
+		Rules:   []string{"C12.R1", "C12.R2", "C12.R3"},
 		Explain: "tbd", NotDecided: []string{"tbd"}})
 	registerProperty(&PropertyDef{ID: "C15", Title: "Cmp is the exact numeric order and CmpTotal is the documented total order",
-		Rules:   []string{"C15.R1"},
+		Rules:   []string{"C15.R1", "C15.R2", "C15.R3", "C08.R1"},
+		Explain: "tbd", NotDecided: []string{"tbd"}})
+}
+
+func init() {
+	registerProperty(&PropertyDef{ID: "C11", Title: "Sqrt is correctly rounded; Cbrt is within one unit and exact on perfect cubes",
+		Rules:   []string{"C11.R1", "C11.R2"},
+		Explain: "tbd", NotDecided: []string{"tbd"}})
+	registerProperty(&PropertyDef{ID: "C20", Title: "Rounding modes bracket each other and rounding is monotone",
+		Rules:   []string{"C20.R1", "C20.R2", "C01.R1", "C01.R2", "C09.R1", "C20.R5"},
+		Explain: "tbd", NotDecided: []string{"tbd"}})
+}
+
+func init() {
+	registerProperty(&PropertyDef{ID: "C14", Title: "String is the GDA scientific string; parsing accepts exactly its grammar",
+		Rules:   []string{"C04.R5", "C14.R2", "C14.R3", "C14.R4", "C14.R6", "C13.R1"},
+		Explain: "tbd", NotDecided: []string{"tbd"}})
+}
+
+func init() {
+	registerProperty(&PropertyDef{ID: "C16", Title: "BigInt behaves exactly like math/big.Int",
+		Rules:   []string{"C16.R1", "C16.R2", "C16.R3", "C05.R1", "C05.R2", "C06.R3"},
 		Explain: "tbd", NotDecided: []string{"tbd"}})
 }
